@@ -257,8 +257,9 @@ def finish(prop, tier, level, results, t0, *, functions, bounds, assumptions, ru
         "wall_s": round(time.time() - t0, 2),
         "violations": len(new_viol),
     }
-    os.makedirs(os.path.join(ROOT, "evidence"), exist_ok=True)
-    with open(os.path.join(ROOT, "evidence", f"{prop}.json"), "w") as f:
+    evdir = os.environ.get("VERIF_EVIDENCE_DIR") or os.path.join(ROOT, "evidence")  # seeded-change runs write elsewhere
+    os.makedirs(evdir, exist_ok=True)
+    with open(os.path.join(evdir, f"{prop}.json"), "w") as f:
         json.dump(ev, f, indent=1, default=str)
     print(
         f"[{prop} {tier}] obligations={cov['obligations']} discharged={cov['discharged']} "
